@@ -106,6 +106,21 @@ add('C15', 'exploration',
     'PROTOCOL_ERROR. Rule-targeted mutations hit every rule at first/middle/last position plus adversarial byte strings.',
     'CONNECT, requests with neither :authority nor Host, exotic edge whitespace, TE case variants and undecodable text under header_encoding are undetermined.')
 
+add('C21', 'exploration',
+    'runtime monitoring: differential execution of twins under different chunkings of the same byte string',
+    'Deep-copied twins of one prepared connection receive the same bytes whole and chunked: ALL two-way splits and the '
+    'single-byte split for strings <= 300 bytes, frame-boundary-biased (+-10 bytes of every frame start/end) and random k-way '
+    'splits otherwise; emitted bytes, canonical events or (exception type, code, offending frame) must agree; read-amount '
+    'sequences on data_to_send must partition the output.',
+    'Output is read once after the last chunk in both runs (a received GOAWAY legitimately discards unread output); twins rely on copy.deepcopy of the connection.')
+
+add('C28', 'exploration',
+    'runtime monitoring: replay of recorded call programs in separate interpreters under different PYTHONHASHSEED values with transcript digests and tripwires',
+    'Recorded programs (incl. repeated header fields with differing values, many-key settings frames, API error paths) are '
+    'replayed twice in-process and in fresh interpreters under 5 (8 in thorough) hash seeds; per-step digests of output bytes, '
+    'canonical events and exception type+code must be identical; clock/random/socket entry points raise while a call runs.',
+    'Exception message text is not compared.')
+
 NOT_BUILT_REASON = 'check not built yet in this session (planned in DESIGN.md; no verdict claimed)'
 
 def main():
